@@ -11,17 +11,15 @@ def interruptCfg : Cfg :=
     firstWins := true,
     finishedContinues := true,
     tiCheck := true,
-    tiCheckSkipsSub := false,
+    tiCheckSkipsSub := true,
     checkAfterInvoke := true,
     checkBeforeInvoke := false,
     startPre := true,
     startInv := true,
     stopInFinally := true,
-    nestedFlow := false,
-    nestedNames := false }
+    nestedFlow := true,
+    nestedNames := true,
+    closeBlocks := true }
 /-- the invariant re-check of runTryInterrupt and the check emitted by generateInvocation pass the agent -/
 def tiCheckPassesAgent : Bool := true
-/-- runTryInterrupt closes the blocks that are still suspended when it is left (otherwise their
-    finalisation, which stops their sub-behaviours, is left to the garbage collector) -/
-def abandonedBlocksClosed : Bool := false
 end Scenic.Gen
